@@ -23,7 +23,7 @@ META = {
                     "events simulation-based results must be bit-identical; under (b)/(c) simulation-based distributions are compared through the statistic only"],
     "deciding": ["pair:events", "pair:catalogs", "pair:cells"],
 }
-META["added"] = 'Added: the same forecast written to .dat files in different cell orders and loaded by the real loader, catalogs carrying a region that lists the cells in another order, mirrored-cell benchmark on dyadic rates (exact opposite-sign ties for the rank test), in-place re-ordering of an already evaluated catalog object, near-tie quantile skip. only forecast B re-listed; fixed seed 0. non-C rate tables in cell permutations, origin times travelling with the events. structural-tie clause for twin catalogs.'
+META["added"] = 'Added: forecasts with a dynamic range of ~1e13 between cells and an event in the weakest cell. regions whose spacing is inferred by from_origins (listing starts with two neighbours) in base and re-ordered listings. the same forecast written to .dat files in different cell orders and loaded by the real loader, catalogs carrying a region that lists the cells in another order, mirrored-cell benchmark on dyadic rates (exact opposite-sign ties for the rank test), in-place re-ordering of an already evaluated catalog object, near-tie quantile skip. only forecast B re-listed; fixed seed 0. non-C rate tables in cell permutations, origin times travelling with the events. structural-tie clause for twin catalogs.'
 MANIFEST = {
     "technique": "metamorphic recorder pairing two real executions of each public evaluation on permuted-but-equivalent inputs; equality oracle on statistic / analytic quantile / multiset of simulation-free distributions, bit equality under event permutation with a fixed seed",
     "level_text": "For generated forecasts/catalogs each of the 18 evaluation functions is executed on the original input and on event-, catalog- and cell-permuted equivalents (Cartesian and quadtree regions, events on cell boundaries); statistics and analytic quantiles must agree to rounding, simulation-free distributions as multisets, and seeded simulation-based results bit-for-bit under event permutation.",
@@ -127,7 +127,13 @@ def build_gridded(case, ratesB, cell_perm=None, event_order=None, quad=None, per
     if quad is None:
         base = fixtures.region(case["nx"], case["ny"], case["dh"], case["ax"], case["ay"])
         origins = base.origins()
-        reg = regions.CartesianGrid2D.from_origins(origins[perm], dh=float(case["dh"]), magnitudes=mags)
+        dh_arg = float(case["dh"])
+        po = origins[perm]
+        if ncell >= 2 and max(abs(po[1, 0] - po[0, 0]), abs(po[1, 1] - po[0, 1])) == dh_arg:
+            # the listing starts with two neighbouring cells whose distance is exactly the spacing: the spacing may be left to from_origins
+            # to infer (what the GEAR1 reader does) - the region is the same one
+            dh_arg = None
+        reg = regions.CartesianGrid2D.from_origins(po, dh=dh_arg, magnitudes=mags)
         ec = numpy.asarray(case["ev_cell"], dtype=int)
         n = ec.size
         frac = numpy.asarray(case["frac"], dtype=float).reshape(n, 2)
@@ -450,6 +456,14 @@ def run(ctx):
     for j in range(n):
         r = ctx.rng("c20", j)
         case = gridcases.gen_case(r, max_cells=16, max_mag=4, max_events=25, rate_lo=-4, rate_hi=1, zero_frac=0.0 if j % 3 else 0.15, events_in_zero=False)
+        if j % 6 == 2 and len(case["rates"]) >= 3 and len(case["ev_cell"]):
+            # a forecast with a very large dynamic range: one cell (not the first of the listing) carries ~1e-13 of the total, and an observed
+            # event lies in it - whatever is computed per cell must not depend on how much rate is stored before that cell
+            ra_ = numpy.array(case["rates"], dtype=float)
+            c_ = 1 + int(r.integers(0, ra_.shape[0] - 1))
+            ra_[c_] = numpy.maximum(ra_[c_], 1e-3) * 1e-13
+            case["rates"] = ra_.tolist()
+            case["ev_cell"][0] = c_
         B = (numpy.array(case["rates"]) * 10 ** r.normal(0, 0.4, numpy.array(case["rates"]).shape))
         B = numpy.where(numpy.array(case["rates"]) == 0, 0.0, B)
         quad = None
